@@ -102,6 +102,34 @@ func runBase(s *big.Int, path int, want ref.Pt) string {
 		if !bytes.Equal(k2.PublicKey().Bytes(), want.Uncompressed()) || !bytes.Equal(k2.PublicKey().CompressedBytes(), want.Compressed()) {
 			return "after deriving a Schnorr key pair from the key, its public encodings are no longer those of d*G"
 		}
+		// "every private scalar d is mapped to the public point d*G" is a statement about key OBJECTS over their whole
+		// life: the caller goes on using the scalar it passed in and the scalars the keys hand out (in-place tweaks,
+		// as in child-key derivation) - the pairing (private scalar, public point) of every key must survive that
+		sk2, err := bitcoin.NewSchnorrPrivateKey(ref.B32(s))
+		if err != nil {
+			return "NewSchnorrPrivateKey failed: " + err.Error()
+		}
+		sc.Add(sc, lib.MkSC(big.NewInt(1)))
+		for _, h := range []*secp256k1.Scalar{k.Scalar(), k2.Scalar(), sk2.Scalar()} {
+			h.Add(h, lib.MkSC(big.NewInt(2)))
+		}
+		for i, kk := range []*secec.PrivateKey{k, k2} {
+			if !bytes.Equal(kk.Bytes(), ref.B32(s)) || !bytes.Equal(kk.Scalar().Bytes(), ref.B32(s)) {
+				return fmt.Sprintf("key %d: after the caller modified scalars it owns (the one passed in, the ones handed out) the key exports another private scalar", i)
+			}
+			if m := lib.CheckPointLight(secp256k1.NewIdentityPoint().ScalarBaseMult(kk.Scalar()), want); m != "" {
+				return fmt.Sprintf("key %d: Scalar()*G is no longer the key's public point d*G: %s", i, m)
+			}
+			if !bytes.Equal(kk.PublicKey().Bytes(), want.Uncompressed()) {
+				return fmt.Sprintf("key %d: public key changed", i)
+			}
+		}
+		if !bytes.Equal(sk2.Bytes(), ref.B32(s)) || !bytes.Equal(sk2.Scalar().Bytes(), ref.B32(s)) {
+			return "Schnorr key: after the caller modified the scalar it was handed, the key exports another private scalar"
+		}
+		if xb, _ := secp256k1.NewIdentityPoint().ScalarBaseMult(sk2.Scalar()).XBytes(); !bytes.Equal(xb, sk2.PublicKey().Bytes()) || !bytes.Equal(xb, ref.B32(want.X)) {
+			return "Schnorr key: x(Scalar()*G) is no longer the key's x-only public key x(d*G)"
+		}
 		return ""
 	}
 	if m := lib.CheckPointLight(v, want); m != "" {
